@@ -406,6 +406,90 @@ def cli_cases(rnd, n):
     return cases
 
 
+def text_error_entries(stdout):
+    """Errors block of a text policy report -> [(field, actual as shown)]"""
+    import re
+    out = report.strip_ansi(stdout)
+    ents = []
+    cur = None
+    for line in out.split('\n'):
+        m = re.match(r'\s*\* (.*) did not match\.\s*$', line)
+        if m:
+            cur = [m.group(1), None]
+            ents.append(cur)
+            continue
+        m = re.match(r'\s*- Actual:\s*(.*?)\s*$', line)
+        if m and cur is not None and cur[1] is None:
+            cur[1] = m.group(1)
+    return [(f, a) for f, a in ents]
+
+
+def json_error_entries(doc):
+    def norm(v):
+        return ', '.join(str(x) for x in v) if isinstance(v, list) else str(v)
+    return [(x['mismatched_field'], norm(x.get('actual', []))) for x in doc.get('errors', [])]
+
+
+def compare_error_views(ck, tag, text_stdout, doc, replay):
+    """Every error of the JSON report is rendered in the text report's Errors block (same field, same actual value); the text block
+    shows nothing the JSON report lacks.  Identical entries may be shown once."""
+    tx = set(text_error_entries(text_stdout))
+    js = set(json_error_entries(doc))
+    if tx != js:
+        missing, extra = sorted(js - tx), sorted(tx - js)
+        ck.violation('cli-text-errors-differ-from-json %s' % tag, 'the Errors block of the text report %s' %
+                     ('lacks %r' % (missing,) if missing else 'shows %r, which the JSON report does not hold' % (extra,)), replay)
+        return False
+    return True
+
+
+def same_field_errors_leg(ck):
+    """Two errors under one field name (two certificates whose CA is too small / of the wrong type): each is reported, in both views."""
+    ed = {'size': 256, 'catype': '', 'casize': 0}
+    shapes = [
+        ('two-ca-sizes', {'ssh-rsa-cert-v01@openssh.com': (3072, 'ssh-rsa', 2048), 'ssh-ed25519-cert-v01@openssh.com': (256, 'ssh-rsa', 3072)},
+         {'ssh-rsa-cert-v01@openssh.com': {'size': 3072, 'catype': 'ssh-rsa', 'casize': 4096}, 'ssh-ed25519-cert-v01@openssh.com': {'size': 256, 'catype': 'ssh-rsa', 'casize': 4096}}, 2),
+        ('two-ca-types', {'ssh-rsa-cert-v01@openssh.com': (3072, 'ssh-rsa', 4096), 'ssh-ed25519-cert-v01@openssh.com': (256, 'ssh-ed25519', 256)},
+         {'ssh-rsa-cert-v01@openssh.com': {'size': 3072, 'catype': 'ecdsa-sha2-nistp256', 'casize': 256}, 'ssh-ed25519-cert-v01@openssh.com': {'size': 256, 'catype': 'ecdsa-sha2-nistp256', 'casize': 256}}, 2),
+        ('one-ca-size', {'ssh-rsa-cert-v01@openssh.com': (3072, 'ssh-rsa', 2048), 'ssh-ed25519-cert-v01@openssh.com': (256, 'ssh-rsa', 4096)},
+         {'ssh-rsa-cert-v01@openssh.com': {'size': 3072, 'catype': 'ssh-rsa', 'casize': 4096}, 'ssh-ed25519-cert-v01@openssh.com': {'size': 256, 'catype': 'ssh-rsa', 'casize': 4096}}, 1)]
+    scs, meta = [], []
+    for tag, actual, pol_hks, nerr in shapes:
+        key = sorted(actual) + ['ssh-ed25519']
+        pol = {'banner': '', 'comp': [], 'opt': [], 'has': ['key'], 'key': key, 'subset': False, 'larger': False, 'dhs': {}, 'hks': dict(pol_hks, **{'ssh-ed25519': ed})}
+        hk = {t: rating.hostkey_blob(t, v) for t, v in actual.items()}
+        hk['ssh-ed25519'] = rating.hostkey_blob('ssh-ed25519', (256, '', 0))
+        srv = peers.ServerCfg(banner=b'SSH-2.0-OpenSSH_9.6', kexinit={'kex': ['curve25519-sha256'], 'key': key, 'enc': ['aes256-ctr'], 'mac': ['hmac-sha2-256'], 'comp': ['none']}, hostkeys=hk)
+        for js in (False, True):
+            scs.append({'argv': (['-j'] if js else ['-n']) + ['--skip-rate-test', '-P', '{tmp}/policy.txt', rating.HOST], 'servers': {(rating.HOST, 22): srv},
+                        'files': {'policy.txt': policy_text(pol)}})
+            meta.append((tag, js, nerr, pol))
+    results = runner.run_many(scs)
+    for i in range(0, len(scs), 2):
+        tag, _, nerr, pol = meta[i]
+        rt, rj = results[i], results[i + 1]
+        ck.evaluated()
+        replay = {'shape': tag, 'policy_text': policy_text(pol), 'text': {'exit': rt.get('exit'), 'stdout': (rt.get('stdout') or '')[-2500:]}, 'json': {'exit': rj.get('exit'), 'stdout': (rj.get('stdout') or '')[-2500:]}}
+        if rt.get('harness_error') or rt.get('hang') or rj.get('harness_error') or rj.get('hang'):
+            ck.violation('same-field-errors-run-did-not-complete', 'a policy audit did not complete', replay)
+            continue
+        try:
+            doc = json.loads(rj['stdout'])
+        except ValueError:
+            ck.violation('cli-json-unparsable', 'policy JSON output does not parse', replay)
+            continue
+        if rt['exit'] != 3 or rj['exit'] != 3 or doc.get('passed') is not False:
+            ck.violation('same-field-errors-verdict shape=%s' % tag, 'certificates with CA keys the policy does not allow: exit %r / %r, passed=%r' % (rt['exit'], rj['exit'], doc.get('passed')), replay)
+            continue
+        ca = [e for e in json_error_entries(doc) if e[0].startswith('CA signature')]
+        if len(ca) != nerr:
+            ck.violation('same-field-errors-count shape=%s' % tag, 'the JSON report holds %d CA errors %r, the rule gives %d' % (len(ca), ca, nerr), replay)
+            continue
+        if compare_error_views(ck, 'shape=%s' % tag, rt['stdout'], doc, replay):
+            ck.cov['traces_validated_against_impl'] += 1
+            ck.nontrivial(('same-field-errors', tag))
+
+
 def cli_leg(ck, tier, rnd, n=None):
     n = n or (150 if tier == 'quick' else 1500)
     cases = cli_cases(rnd, n)
@@ -436,6 +520,7 @@ def cli_leg(ck, tier, rnd, n=None):
     k = 0
     for c in cases:
         e = exp[c['id']]
+        text_out = None
         for js in (False, True):
             r, sc = results[k], scs[k]
             k += 1
@@ -457,6 +542,8 @@ def cli_leg(ck, tier, rnd, n=None):
                 if doc.get('passed') != e['passed'] or got != sorted(e['errors']):
                     ck.violation('cli-json-verdict', 'JSON says passed=%r fields %r; the rule says passed=%r fields %r' % (doc.get('passed'), got, e['passed'], sorted(e['errors'])), replay)
                     continue
+                if text_out is not None and not compare_error_views(ck, 'case', text_out, doc, dict(replay, text_stdout=text_out[-2500:])):
+                    continue
             else:
                 ok_line = 'Passed' in r['stdout'] and 'Failed!' not in r['stdout']
                 if ok_line != e['passed']:
@@ -465,10 +552,12 @@ def cli_leg(ck, tier, rnd, n=None):
                 for f in e['errors']:
                     if ('* %s did not match.' % f) not in r['stdout']:
                         ck.violation('cli-text-error-missing', 'mismatched field %r not named in the Errors block' % f, replay)
+                text_out = r['stdout']
             ck.cov['traces_validated_against_impl'] += 1
             if not e['passed']:
                 ck.nontrivial(('cli', c['id'], js))
     ck.notes.append('CLI leg: %d policy audits through -P (text and JSON): exit status 0 <=> passed, 3 <=> failed' % len(results))
+    same_field_errors_leg(ck)
     multi_target_leg(ck, cases, exp, rnd)
     builtin_optional_leg(ck, tier)
 
